@@ -13,7 +13,7 @@ CONFIG = {
     "rule": "per history (8 or 12 rounds of prepared StateDeltas: 5-7 accounts incl. online ones whose Total* counters match their asset / app resources, one "
             "account holding 6+ resources, boxes; history 1 also has box ('ab','c') of another app, history 2 both ('ab','c') and ('a','bc')): a REAL tracker stack "
             "(catchpoint file generation on, random merkletrie.MemoryConfig, random early commits) is run to the first-stage round; there the producer's tracker DB "
-            "is dumped (accounts with resources, KVs, online accounts / round params, totals, committed trie root) and the real catchpointFileWriter is ALSO run with "
+            "is dumped (accounts with resources, KVs, the creators table (assetcreators: every asset / app index -> creator, kept current through StateDelta.Creatables), online accounts / round params, totals, committed trie root; a late account that only HOLDS an asset / is opted in to an app of an earlier creator is the last resource-bearing account of the last balances chunk) and the real catchpointFileWriter is ALSO run with "
             "a resources-per-chunk budget of 2..4 (accounts spanning chunks); then on to the catchpoint round (real label, the tracker's own catchpoint file; the "
             "writer's data file is repacked with the real header). Each of the two files, and 16 (60) MUTANTS of its decoded section list out of 45 kinds (header: totals, "
             "rewards level, block / balances round, counts, label, digest, version down / bad; sections: chunk dropped / duplicated / swapped / truncated / bit-flipped, "
